@@ -2,12 +2,14 @@ import Yarel.Model.Basic
 import Yarel.Drv.Intern
 import Yarel.Drv.Gc
 import Yarel.Drv.Pace
+import Yarel.Drv.Upv
 
 def main (args : List String) : IO UInt32 := do
   match args with
   | "intern" :: rest => do Yarel.Drv.Intern.run rest; return 0
   | "gc" :: rest => do Yarel.Drv.Gc.run rest; return 0
   | "pace" :: rest => do Yarel.Drv.Pace.run rest; return 0
+  | "upv" :: rest => do Yarel.Drv.Upv.run rest; return 0
   | _ => do
     IO.eprintln "usage: yarel_model <family> [args]"
     return 2
